@@ -505,3 +505,87 @@ Proof.
   - intros tT p ifFalse. cbn. rewrite Z.eqb_refl. reflexivity.
   - intros tT dyn p ifFalse H. cbn. apply Z.eqb_neq in H. rewrite H. reflexivity.
 Qed.
+
+(* ---------- typed integer statements: arguments of type t give a result of type t ---------- *)
+
+Theorem imin_typed t v : v <> [] -> Forall (in_range t) v ->
+  exists r, imin t v = Ok r /\ In r v /\ in_range t r /\ forall x, In x v -> r <= x.
+Proof.
+  intros Hne Hall. destruct (imin_correct t v Hne) as (r & E & Hin & Hle).
+  exists r. repeat split; auto; apply (proj1 (Forall_forall _ _) Hall r Hin).
+Qed.
+
+Theorem imax_typed t v : v <> [] -> Forall (in_range t) v ->
+  exists r, imax t v = Ok r /\ In r v /\ in_range t r /\ forall x, In x v -> x <= r.
+Proof.
+  intros Hne Hall. destruct (imax_correct t v Hne) as (r & E & Hin & Hle).
+  exists r. repeat split; auto; apply (proj1 (Forall_forall _ _) Hall r Hin).
+Qed.
+
+Theorem iclamp_typed t v lo hi : in_range t v -> in_range t lo -> in_range t hi -> lo <= hi ->
+  iclamp t v lo hi = (if v <? lo then lo else if hi <? v then hi else v) /\
+  iclamp t v lo hi = Z.max lo (Z.min v hi) /\
+  (lo <= v <= hi -> iclamp t v lo hi = v) /\
+  (v < lo -> iclamp t v lo hi = lo) /\
+  (hi < v -> iclamp t v lo hi = hi) /\
+  lo <= iclamp t v lo hi <= hi /\
+  in_range t (iclamp t v lo hi).
+Proof.
+  intros Rv Rlo Rhi H. destruct (iclamp_correct t v lo hi H) as (H1 & H2 & H3 & H4 & H5 & H6).
+  repeat split; auto; unfold in_range in *; lia.
+Qed.
+
+Theorem iclamp01_typed t v : in_range t v ->
+  iclamp01 t v = iclamp t v 0 1 /\
+  iclamp01 t v = (if v <? 0 then 0 else if 1 <? v then 1 else v) /\
+  in_range t (iclamp01 t v).
+Proof.
+  intro R. split; [reflexivity|]. split; [reflexivity|].
+  pose proof (in_range_0 t) as R0. pose proof (in_range_1 t) as R1.
+  unfold iclamp01, clamp01. destruct (v <? 0); [exact R0|]. destruct (1 <? v); [exact R1|exact R].
+Qed.
+
+Theorem icompare_typed t a b : in_range t a -> in_range t b ->
+  icompare t a b = match a ?= b with Lt => -1 | Eq => 0 | Gt => 1 end /\
+  (iless t a b = true <-> a < b) /\
+  (icompare t a b = 0 <-> a = b) /\ (icompare t a b = -1 <-> a < b) /\ (icompare t a b = 1 <-> b < a).
+Proof.
+  intros _ _. destruct (icompare_less_correct t a b) as [E L]. split; [exact E|]. split; [exact L|].
+  rewrite E. destruct (Z.compare_spec a b); repeat split; intros; try lia; try discriminate.
+Qed.
+
+(* ---------- Abs over an ordered carrier with negation (floats without NaN) ---------- *)
+
+Section AbsProofs.
+Context {A : Type} (ltb : A -> A -> bool) (neg : A -> A) (zero : A).
+Hypothesis neg_of_negative : forall v, ltb v zero = true -> ltb (neg v) zero = false.
+
+Theorem gabs_correct v :
+  (ltb v zero = true -> gabs ltb neg zero v = neg v) /\
+  (ltb v zero = false -> gabs ltb neg zero v = v) /\
+  ltb (gabs ltb neg zero v) zero = false.
+Proof.
+  unfold gabs. destruct (ltb v zero) eqn:E; repeat split; auto; discriminate.
+Qed.
+End AbsProofs.
+
+(* through the order preserving, negation-commuting code of the floats in Z: the magnitude *)
+Theorem gabs_code v : gabs Z.ltb Z.opp 0 v = Z.abs v /\ (forall v', (v' <? 0) = true -> (- v' <? 0) = false).
+Proof.
+  split.
+  - unfold gabs. destruct (Z.ltb_spec v 0); lia.
+  - intros v'. rewrite Z.ltb_lt, Z.ltb_ge. lia.
+Qed.
+
+(* ---------- TernCast to an interface type ---------- *)
+
+Theorem tern_cast_iface_correct {P : Type} (impl : Z -> bool) :
+  (forall value (ifFalse : iface P), tern_cast_iface impl false value ifFalse = Ok ifFalse) /\
+  (forall dyn (p : P) ifFalse, impl dyn = true -> tern_cast_iface impl true (Some (dyn, p)) ifFalse = Ok (Some (dyn, p))) /\
+  (forall dyn (p : P) ifFalse, impl dyn = false -> tern_cast_iface impl true (Some (dyn, p)) ifFalse = Panic OtherPanic) /\
+  (forall ifFalse : iface P, tern_cast_iface impl true None ifFalse = Panic OtherPanic).
+Proof.
+  repeat split.
+  - intros dyn p ifFalse H. cbn. rewrite H. reflexivity.
+  - intros dyn p ifFalse H. cbn. rewrite H. reflexivity.
+Qed.
